@@ -32,6 +32,25 @@ Example concat_session_correct_ex :
   = Ok ([0; 7; 12; 17], concat (concat_spec spans strs)).
 Proof. vm_compute. repeat split; reflexivity. Qed.
 
+(* (full) the same, stated on the index / value arrays of a stored column: an empty column has an
+   empty index array (not [0]), for which the only admissible boundary arrays are [] and [x] *)
+Theorem concat_session_correct_field : forall strs spans csz dcs mult fuel,
+  spans_in_range spans (len strs) -> (strs <> [] \/ (length spans <= 1)%nat) ->
+  1 <= csz -> 0 <= dcs * mult ->
+  fits (dcs * mult) (concat_spec spans strs) ->
+  (length spans < fuel)%nat ->
+  session_concat fuel spans (field_index strs) (field_values strs) csz dcs mult
+  = Ok (spec_indices (concat_spec spans strs), spec_values (concat_spec spans strs)).
+Proof. exact session_concat_field_proof. Qed.
+Print Assumptions concat_session_correct_field.
+
+(* the `fits` hypothesis is needed: a 7-byte entry does not fit a 6-byte value buffer (site 5 =
+   dest_values), and with N = 8 a 6-byte entry starting at offset 3 = N/2-1 overruns although it would fit an empty buffer *)
+Example concat_fits_needed :
+  session_concat 5 [0; 2] [0; 1; 4] [97; 98; 44; 99] 2 6 1 = OOB 5 /\
+  session_concat 5 [0; 1; 2] [0; 3; 7] [97; 98; 99; 98; 44; 99; 100] 4 8 1 = OOB 5.
+Proof. vm_compute. split; reflexivity. Qed.
+
 (* (full) the stored arrays do not depend on (src_chunksize, dest_chunksize, mult) *)
 Theorem concat_chunking_unobservable : forall strs spans csz1 dcs1 mult1 csz2 dcs2 mult2 fuel1 fuel2,
   spans_in_range spans (len strs) ->
